@@ -186,28 +186,41 @@ def check_send_close(case):
     return out
 
 
-def check_server(case):
-    """Runs _check_server under a watchdog: a call that blocks in the operating system (e.g. inside socket.accept with
-    nobody connecting) cannot be seen by the counted fake sleep, so the work runs in a daemon thread; if that thread
-    is still alive after 15 s with its stack inside mido, the call is reported as blocked forever (with the frame)."""
+def watchdog(fn, what, timeout=15.0, **facts):
+    """A call that blocks in the operating system (socket.accept with nobody connecting, a blocking read with no data)
+    cannot be seen by the counted fake sleep, so socket work runs in a daemon thread; if that thread is still alive after
+    `timeout` seconds with its stack inside mido, the call is reported as blocked forever (with the frames). The data
+    involved is tiny and local, so 15 s is three to four orders of magnitude more than a correct run needs."""
     import sys
     import threading
     import traceback
     box = {}
 
     def work():
-        box['res'] = _check_server(case)
+        try:
+            box['res'] = fn()
+        except BaseException as exc:  # noqa: BLE001
+            box['exc'] = exc
     t = threading.Thread(target=work, daemon=True)
     t.start()
-    t.join(15.0)
+    t.join(timeout)
     if t.is_alive():
         frame = sys._current_frames().get(t.ident)
         stack = traceback.extract_stack(frame) if frame is not None else []
         inside = [f'{fr.filename.split("/mido/")[-1]}:{fr.name}' for fr in stack if '/mido/' in fr.filename]
-        return [fail('server-blocks-forever', f'server call still blocked after 15 s in {inside[-3:]} '
-                                              f'(drain={case.get("drain")})', drain=case.get('drain', 'poll'),
-                     where=(inside[-1] if inside else '?'))], 'ok'
-    return box['res']
+        return None, [fail('blocks-forever', f'{what}: still blocked after {timeout:.0f} s in {inside[-3:]}',
+                           where=(inside[-1] if inside else '?'), **facts)]
+    if 'exc' in box:
+        raise box['exc']
+    return box['res'], None
+
+
+def check_server(case):
+    res, stuck = watchdog(lambda: _check_server(case), f'server (drain={case.get("drain")})',
+                          drain=case.get('drain', 'poll'))
+    if stuck:
+        return stuck, 'ok'
+    return res
 
 
 def _check_server(case):
@@ -343,9 +356,12 @@ def check_address(host, lo, hi):
 def run_case(case):
     k = case['kind']
     if k == 'cut':
-        return check_cut(case)
+        res, stuck = watchdog(lambda: check_cut(case), f'socket port, cut={case["cut"]} drain={case.get("drain")}',
+                              timeout=5.0, drain=case.get('drain', 'iterate'))
+        return stuck or res
     if k == 'send':
-        return check_send_close(case)
+        res, stuck = watchdog(lambda: check_send_close(case), 'send/close', timeout=5.0)
+        return stuck or res
     if k == 'server':
         return check_server(case)[0]
     if k == 'address':
